@@ -122,4 +122,28 @@ theorem lastIndexOf_none_iff (l : List Bytes) (x : Bytes) : lastIndexOf l x = no
   unfold lastIndexOf
   cases h : lastIndexFrom l x 0 none <;> simp_all
 
+theorem lastIndexFrom_get (l : List Bytes) (x : Bytes) (i0 : Nat) (acc : Option Nat) (pre : List Bytes)
+    (hpre : pre.length = i0) (hacc : ∀ j, acc = some j → (pre ++ l)[j]? = some x) :
+    ∀ j, lastIndexFrom l x i0 acc = some j → (pre ++ l)[j]? = some x := by
+  induction l generalizing i0 acc pre with
+  | nil => intro j h; simp only [lastIndexFrom] at h; exact hacc j h
+  | cons y ys ih =>
+    intro j h
+    simp only [lastIndexFrom] at h
+    have := ih (i0 + 1) (if (y == x) = true then some i0 else acc) (pre ++ [y]) (by simp [hpre])
+      (by
+        intro k hk
+        split at hk
+        · rename_i hyx
+          cases hk
+          simp only [beq_iff_eq] at hyx
+          simp [← hpre, hyx]
+        · have := hacc k hk
+          simpa using this) j h
+    simpa using this
+
+theorem lastIndexOf_get {l : List Bytes} {x : Bytes} {j : Nat} (h : lastIndexOf l x = some j) : l[j]? = some x := by
+  have := lastIndexFrom_get l x 0 none [] rfl (by intro j h; cases h) j h
+  simpa using this
+
 end C09
